@@ -142,8 +142,23 @@ def check(ctx):
     lm = model.func(f"{DESER_MOD}.LiteralMethod.deserialize")
     coer_calls = [n for n in walk_no_nested(lm.node) if isinstance(n, ast.Call) and norm(n.func) == "self.coercer"]
     parents = {c: p for p in ast.walk(lm.node) for c in ast.iter_child_nodes(p)}
-    ok = bool(coer_calls) and all(isinstance(parents.get(c), ast.Subscript) and norm(parents[c].value) == "self.value_map" for c in coer_calls)
-    ctx.check(ok, "C14.R4", lm.qualname, coer_calls[0] if coer_calls else lm.node, "LiteralMethod uses a coerced value otherwise than as a key of value_map: a coerced value that is not a member would be accepted", lm, lm.node, detail="self.value_map[self.coercer(cls, data)]")
+    def only_a_key(c):
+        """the coercer's result is used only inside the key of a value_map lookup (directly or through one local)"""
+        def in_key(n):
+            p = parents.get(n)
+            while p is not None:
+                if isinstance(p, ast.Subscript) and norm(p.value) == "self.value_map" and n is not p.value:
+                    return True
+                n, p = p, parents.get(p)
+            return False
+        p = parents.get(c)
+        if isinstance(p, ast.Assign) and len(p.targets) == 1 and isinstance(p.targets[0], ast.Name):
+            loc = p.targets[0].id
+            loads = [x for x in ast.walk(lm.node) if isinstance(x, ast.Name) and x.id == loc and isinstance(x.ctx, ast.Load)]
+            return bool(loads) and all(in_key(x) for x in loads)
+        return in_key(c)
+    ok = bool(coer_calls) and all(only_a_key(c) for c in coer_calls)
+    ctx.check(ok, "C14.R4", lm.qualname, coer_calls[0] if coer_calls else lm.node, "LiteralMethod uses a coerced value otherwise than as a key of value_map: a coerced value that is not a member would be accepted", lm, lm.node, detail="self.value_map[... self.coercer(cls, data) ...]")
     om = model.func(f"{DESER_MOD}.OptionalMethod.deserialize")
     coer_calls = [n for n in walk_no_nested(om.node) if isinstance(n, ast.Call) and norm(n.func) == "self.coercer"]
     parents = {c: p for p in ast.walk(om.node) for c in ast.iter_child_nodes(p)}
